@@ -31,15 +31,17 @@ ITER_IDENT = ("<I as core::iter::traits::collect::IntoIterator>::into_iter",)
 
 
 class Form:
-    """const + sum(coef * atom)"""
-    __slots__ = ("c", "t")
+    """const + sum(coef * atom); `caps` = {(unstable local, block)}: the block in which the current value of a
+    re-assigned local was read into the form (its validity is checked against the local's other definitions)."""
+    __slots__ = ("c", "t", "caps")
 
-    def __init__(self, c=0, t=None):
+    def __init__(self, c=0, t=None, caps=None):
         self.c = Fraction(c)
         self.t = dict(t or {})
+        self.caps = frozenset(caps or ())
 
     def add(self, o, k=1):
-        r = Form(self.c + k * o.c, self.t)
+        r = Form(self.c + k * o.c, self.t, self.caps | o.caps)
         for a, v in o.t.items():
             nv = r.t.get(a, 0) + k * v
             if nv == 0:
@@ -70,6 +72,12 @@ class Prover:
         self._forms = {}
         self._atom_facts = {}         # atom -> [Form]
         self._diseq = {}              # site block -> [Form != 0]
+        self.failed_subs = {}         # local -> description of an unsigned subtraction that could not be proved not to wrap
+        self._unstable = {}
+        self.type_bound = None        # when set by a caller for one proof: every atom is <= this value
+        self._kill_memo = {}
+        self._u_inprogress = set()
+        self._u_init = {}
         self._mut = mut_borrowed if mut_borrowed is not None else self._mut_borrowed()
         self.assumed = []
 
@@ -116,6 +124,201 @@ class Prover:
         if v.is_arg(l):
             return not self.own_defs(l)
         return self.sdef(l) is not None
+
+    # -- re-assigned integer locals (loop counters) -----------------------------------------------------------------
+    def _unstable_ok(self, l):
+        """An integer local with several plain whole-local assignments, never mutably borrowed."""
+        v = self.v
+        if l in self._unstable:
+            return self._unstable[l]
+        ok = False
+        if not v.is_arg(l) and l not in self._mut and v.local_tyname(l) in ("usize", "u64", "u32", "u16", "u8"):
+            ds = v.defs.get(l, [])
+            ok = len(ds) >= 2 and all(d[1] != "term" and d[2]["s"] == "assign" and not d[2]["pl"]["p"] for d in ds)
+        self._unstable[l] = ok
+        return ok
+
+    def _step_of(self, l, d):
+        """('add'|'sub', c) when definition d of l is `l = l +/- c` (directly or through one temporary), else None."""
+        v = self.v
+        rv = d[2]["rv"]
+        if rv["r"] == "use" and rv["a"].get("o") in ("copy", "move") and not rv["a"]["p"]:
+            td = v.single_def(rv["a"]["l"])
+            if td is None or td[1] == "term" or td[0] != d[0]:
+                return None
+            rv = td[2]["rv"]
+        elif rv["r"] == "use" and rv["a"].get("o") in ("copy", "move") and rv["a"]["p"] == [["f", 0]]:
+            # overflow-checked build: `_t = AddWithOverflow(copy l, c); assert(!_t.1); l = move (_t.0)`
+            td = v.single_def(rv["a"]["l"])
+            if td is None or td[1] == "term" or not td[2]["rv"].get("op", "").endswith("WithOverflow"):
+                return None
+            if td[0] != d[0] and (td[0] not in v.dom.get(d[0], ()) or any(
+                    k in self._kills_raw(l) for k in self._between_blocks(td[0], d[0]))):
+                return None
+            rv = td[2]["rv"]
+        if rv["r"] != "bin":
+            return None
+        op = rv["op"].replace("Unchecked", "").replace("WithOverflow", "")
+        if op not in ("Add", "Sub"):
+            return None
+        a, b = rv["a"], rv["b"]
+        if not (a.get("o") in ("copy", "move") and not a["p"] and a["l"] == l):
+            return None
+        c = v.const_of_operand(b)
+        if c is None or c < 0:
+            return None
+        return ("add" if op == "Add" else "sub", c)
+
+    def _kills_raw(self, l):
+        return {k for k in self._kills(l) if not isinstance(k, tuple)}
+
+    def _between_blocks(self, a, b):
+        """Blocks strictly between a and b on the straight-line chain a -> ... -> b (single successors only)."""
+        out, x, n = [], a, 0
+        while n < 8:
+            n += 1
+            succ = self.v.succ.get(x, [])
+            if len(succ) != 1:
+                return [a]          # not a chain: report a itself so that the caller's kill test fails closed
+            x = succ[0]
+            if x == b:
+                return out
+            out.append(x)
+        return [a]
+
+    def _kills(self, l):
+        if l not in self._kill_memo:
+            from . import total
+            self._kill_memo[l] = total.Totality._kill_blocks(self.v, l)
+        return self._kill_memo[l]
+
+    def _valid_between(self, l, gb, gs, site_block, ignore_block=None):
+        """The value of l read in block gb (before its terminator's edge gb -> gs) is still its value on entry to
+        site_block: no definition of l in gb, and none on a path from the edge to the site that does not re-take the edge."""
+        from . import total
+        kills = set(self._kills(l))
+        if gb in kills:
+            return False
+        if ignore_block is not None:
+            kills.discard(ignore_block)
+        region = total.Totality._region(self.v, gb, gs, site_block)
+        return not total.Totality._killed_between(kills, region, site_block)
+
+    def _unstable_facts(self, l):
+        """Loop invariants of a counter: one initialising definition `l = F` that dominates all others, every other
+        definition a step `l = l - c` (then l <= F, each step proved not to wrap) or `l = l + c` (then l >= F; and
+        l <= G when every step is `+ 1` taken under a dominating `l != G` test and F <= G holds at the
+        initialisation: the invariant is inductive)."""
+        a = ("u", l)
+        if a in self._atom_facts:
+            return self._atom_facts[a]
+        if l in self._u_inprogress:
+            return []
+        self._u_inprogress.add(l)
+        facts = []
+        try:
+            v = self.v
+            ds = v.defs.get(l, [])
+            init, steps = [], []
+            for d in ds:
+                st = self._step_of(l, d)
+                if st is None:
+                    init.append(d)
+                else:
+                    steps.append((d, st))
+            if len(init) != 1 or not steps:
+                return []
+            idef = init[0]
+            if any(idef[0] == d[0] or idef[0] not in v.dom.get(d[0], ()) for d, _ in steps):
+                return []
+            rv = idef[2]["rv"]
+            F = self.form(rv["a"], at=idef[0]) if rv["r"] == "use" else None
+            if F is None and rv["r"] == "bin" and rv["op"].replace("Unchecked", "") == "Add":
+                fa, fb = self.form(rv["a"], at=idef[0]), self.form(rv["b"], at=idef[0])
+                F = fa.add(fb) if fa is not None and fb is not None else None
+            if F is None or any(x[0] == l for x in F.caps):
+                return []
+            if F.caps and not all(self._cap_ok_at(x, b, idef[0]) for x, b in F.caps):
+                return []
+            x = Form(0, {a: Fraction(1)})
+            kinds = {st[0] for _, st in steps}
+            blocks = [d[0] for d, _ in steps]
+            if len(set(blocks)) != len(blocks):
+                return []
+            if kinds == {"sub"}:
+                ok = True
+                for d, (_k, c) in steps:
+                    g = Form(-c, {a: Fraction(1)}, [(l, d[0])])
+                    if not self._prove_at(g, d[0], own_def_ok=True):
+                        ok = False
+                        break
+                if ok:
+                    facts.append(Form(F.c, F.t).add(x, -1))            # F - l >= 0
+            elif kinds == {"add"}:
+                facts.append(x.add(Form(F.c, F.t), -1))                 # l - F >= 0
+                if all(c == 1 for _, (_k, c) in steps):
+                    G = self._ne_guard_bound(l, steps)
+                    if G is not None and self._prove_at(Form(G.c, G.t).add(Form(F.c, F.t), -1), idef[0]):
+                        facts.append(Form(G.c, G.t).add(x, -1))         # G - l >= 0
+            self._u_init[l] = idef[0]
+        finally:
+            self._u_inprogress.discard(l)
+        self._atom_facts[a] = facts
+        return facts
+
+    def _cap_ok_at(self, x, b, site_block, own_def_ok=False):
+        """The value of re-assigned local x read in block b is its value at the site (block site_block)."""
+        if b == site_block:
+            return own_def_ok or site_block not in self._kills(x)
+        succ = self.v.succ.get(b, [])
+        if len(succ) != 1 or b not in self.v.dom.get(site_block, ()):
+            return False
+        return self._valid_between(x, b, succ[0], site_block, ignore_block=site_block if own_def_ok else None)
+
+    def _ne_guard_bound(self, l, steps):
+        """G such that every `l += 1` is taken on the `l != G` edge of one switch with l unchanged in between."""
+        v = self.v
+        for gb in v.reachable:
+            t = v.blocks[gb]["term"]
+            if t["t"] != "switch":
+                continue
+            dsc = t["discr"]
+            if dsc.get("o") not in ("copy", "move") or dsc["p"]:
+                continue
+            ch = v.chase(dsc)
+            neg = False
+            if ch[0] == "rv" and ch[1]["r"] == "un" and ch[1]["op"] == "Not":
+                ch = v.chase(ch[1]["a"])
+                neg = True
+            if not (ch[0] == "rv" and ch[1]["r"] == "bin" and ch[1]["op"] in ("Eq", "Ne")) or ch[2] != gb:
+                continue
+            fa, fb = self.form(ch[1]["a"], at=gb), self.form(ch[1]["b"], at=gb)
+            if fa is None or fb is None:
+                continue
+            if fa.t == {("u", l): 1} and fa.c == 0 and not fb.caps:
+                G = fb
+            elif fb.t == {("u", l): 1} and fb.c == 0 and not fa.caps:
+                G = fa
+            else:
+                continue
+            for gs in v.succ.get(gb, []):
+                vals = [val for val, bb in t["targets"] if bb == gs]
+                truths = {bool(val) for val in vals}
+                if t["otherwise"] == gs:
+                    truths |= ({True, False} - {bool(val) for val, _ in t["targets"]})
+                if len(truths) != 1:
+                    continue
+                truth = truths.pop() != neg
+                is_ne = (ch[1]["op"] == "Ne") == truth
+                if not is_ne:
+                    continue
+                if all(v.edge_dominates(gb, gs, d[0]) and self._valid_between(l, gb, gs, d[0], ignore_block=d[0])
+                       for d, _ in steps):
+                    return G
+        return None
+
+    def _prove_at(self, goal, site_block, own_def_ok=False):
+        return self.prove(goal, site_block, own_def_ok=own_def_ok)
 
     # -- slice roots ----------------------------------------------------------------------------------------------
     def root(self, l, depth=8):
@@ -170,7 +373,12 @@ class Prover:
         return atom_form(("param", name))
 
     # -- linear forms ---------------------------------------------------------------------------------------------
-    def form(self, op, depth=12):
+    def form(self, op, depth=12, at=None):
+        """Linear form of an operand.  `at`: the block in which the operand is read (needed when it is a local that
+        is assigned more than once: a loop counter)."""
+        if op.get("o") in ("copy", "move") and not op["p"] and at is not None and self._unstable_ok(op["l"]):
+            a = ("u", op["l"])
+            return Form(0, {a: Fraction(1)}, [(op["l"], at)])
         if op.get("o") == "const":
             c = op.get("c")
             if c == "lit":
@@ -238,7 +446,7 @@ class Prover:
         rv = d[2]["rv"]
         k = rv["r"]
         if k == "use":
-            f = self.form(rv["a"], depth - 1)
+            f = self.form(rv["a"], depth - 1, at=d[0])
             return f if f is not None else self._opaque(l)
         if k == "un" and rv.get("op") == "PtrMetadata":
             src = rv.get("a")
@@ -250,7 +458,7 @@ class Prover:
         if k == "bin":
             op = rv["op"].replace("Unchecked", "")
             if op in ("Add", "Sub"):
-                fa, fb = self.form(rv["a"], depth - 1), self.form(rv["b"], depth - 1)
+                fa, fb = self.form(rv["a"], depth - 1, at=d[0]), self.form(rv["b"], depth - 1, at=d[0])
                 if fa is not None and fb is not None:
                     if op == "Add":
                         return fa.add(fb)
@@ -258,6 +466,8 @@ class Prover:
                     # unsigned subtraction: only its mathematical value when it provably does not wrap
                     if self.prove(diff, need_dom=d[0]):
                         return diff
+                    from . import panics
+                    self.failed_subs[l] = "Sub(%s,%s)" % (panics._named_local(self.v, rv["a"]), panics._named_local(self.v, rv["b"]))
                 return self._opaque(l)
             if op == "Mul":
                 fa, fb = self.form(rv["a"], depth - 1), self.form(rv["b"], depth - 1)
@@ -495,7 +705,7 @@ class Prover:
                         self._fact(a, eq.add(x, -1))
 
     # -- facts from dominating branch edges -----------------------------------------------------------------------
-    def branch_facts(self, site_block):
+    def branch_facts(self, site_block, own_def_ok=False):
         v = self.v
         out = []
         self._diseq[site_block] = []
@@ -527,9 +737,15 @@ class Prover:
                 if len(truths) != 1 or not v.edge_dominates(b, s, site_block):
                     continue
                 truth = truths.pop() != neg
-                fa, fb = self.form(ch[1]["a"]), self.form(ch[1]["b"])
+                fa, fb = self.form(ch[1]["a"], at=ch[2]), self.form(ch[1]["b"], at=ch[2])
                 if fa is None or fb is None:
                     continue
+                caps = fa.caps | fb.caps
+                if caps and not all((cb == b and self._valid_between(x, b, s, site_block,
+                                                                     ignore_block=site_block if own_def_ok else None))
+                                    or (cb != b and self._cap_ok_at(x, cb, site_block, own_def_ok))
+                                    for x, cb in caps):
+                    continue      # a re-assigned local may have changed between the test and the site
                 op = ch[1]["op"]
                 if not truth:
                     op = {"Lt": "Ge", "Le": "Gt", "Gt": "Le", "Ge": "Lt", "Eq": "Ne", "Ne": "Eq"}[op]
@@ -608,10 +824,10 @@ class Prover:
                 out.append(g)
         return out
 
-    def facts_for(self, goal, site_block):
+    def facts_for(self, goal, site_block, own_def_ok=False):
         facts = list(self._pre_facts())
         if site_block is not None:
-            facts.extend(self.branch_facts(site_block))
+            facts.extend(self.branch_facts(site_block, own_def_ok))
         # close over the atoms mentioned
         seen = set()
         work = list(goal.t) + [a for f in facts for a in f.t]
@@ -622,22 +838,44 @@ class Prover:
             if a in seen:
                 continue
             seen.add(a)
+            if a[0] == "u":
+                fs = self._unstable_facts(a[1])
+                ib = self._u_init.get(a[1])
+                if not fs or ib is None or site_block is None or ib == site_block or ib not in self.v.dom.get(site_block, ()):
+                    continue
+                for f in fs:
+                    facts.append(f)
+                    work.extend(f.t)
+                continue
             for f in self._atom_facts.get(a, []):
                 facts.append(f)
                 work.extend(f.t)
+        if self.type_bound is not None:
+            atoms = set(goal.t)
+            for f in facts:
+                atoms |= set(f.t)
+            for a in atoms:
+                if a[0] in ("l", "u") and self.v.local_tyname(a[1]) == "u128":
+                    continue
+                facts.append(Form(self.type_bound).add(atom_form(a), -1))
         uniq = {}
         for f in facts:
             if not f.trivially_nonneg():
                 uniq[f.key()] = f
         return list(uniq.values())
 
-    def prove(self, goal, site_block=None, need_dom=None):
+    def prove(self, goal, site_block=None, need_dom=None, own_def_ok=False):
         """goal >= 0 ?"""
         if site_block is None:
             site_block = need_dom
         if goal.trivially_nonneg():
             return True
-        facts = self.facts_for(goal, site_block)
+        for x, cb in goal.caps:
+            # the goal speaks about the value a re-assigned local has where it was read: that must be the site's block,
+            # with no other definition of the local in it (own_def_ok: the block's definition is the step being proved)
+            if not self._cap_ok_at(x, cb, site_block, own_def_ok):
+                return False
+        facts = self.facts_for(goal, site_block, own_def_ok)
         # integer disequalities on dominating edges: d != 0 and d >= 0 give d - 1 >= 0
         pending = list(self._diseq.get(site_block, []))
         for _round in range(4):     # x != 1 and x >= 1 give x >= 2, which with x != 2 gives x >= 3, ...
@@ -681,6 +919,23 @@ class Prover:
                         return True
             return False
         return rec(goal, 5)
+
+    def blame(self, forms):
+        """Descriptions of the unsigned subtractions that could not be proved not to wrap and that the given forms
+        depend on (directly, or through the facts of their atoms: `j <= m` with `m = len - n - 1`)."""
+        seen, work, out = set(), [a for f in forms if f is not None for a in f.t], []
+        n = 0
+        while work and n < 200:
+            n += 1
+            a = work.pop()
+            if a in seen:
+                continue
+            seen.add(a)
+            if a[0] == "l" and a[1] in self.failed_subs and self.failed_subs[a[1]] not in out:
+                out.append(self.failed_subs[a[1]])
+            for f in self._atom_facts.get(a, []):
+                work.extend(f.t)
+        return sorted(out)
 
     # -- goals of the site kinds -------------------------------------------------------------------------------------
     def lt(self, a_form, b_form, site_block):
